@@ -10,7 +10,7 @@ mkdir -p $M
 if [ ! -d $M/repo ]; then git -C /repo worktree add --detach $M/repo HEAD >/dev/null 2>&1 || exit 2; fi
 git -C $M/repo checkout -q --detach $(git -C /repo rev-parse HEAD) && git -C $M/repo checkout -q -- . || exit 2
 mkdir -p $M/verif
-rsync -a --delete --exclude .git --exclude .work --exclude harness/target --exclude evidence /verif/ $M/verif/
+rsync -a --delete --exclude .git --exclude .work --exclude harness/target --exclude evidence ${VERIF_SRC:-/verif}/ $M/verif/
 mkdir -p $M/verif/evidence
 sed -i "s|path = \"/repo\"|path = \"$M/repo\"|" $M/verif/harness/Cargo.toml
 sed -i "s|^REPO = \"/repo\"|REPO = \"$M/repo\"|" $M/verif/vlib/common.py
